@@ -478,7 +478,9 @@ typename BasicSuffixSet<Alloc>::SuffixImpl *BasicSuffixSet<Alloc>::DoAdd(
   const char *s = name.data();
   std::copy(s, s + size, fmt::internal::make_ptr(name_copy, size));
   name_copy[size] = 0;
-  impl->name = name_copy;
+  /// Keep the full size: the name may contain 0 (binary .nl input)
+  /// and the size is needed to deallocate it.
+  impl->name = fmt::StringRef(name_copy, size);
   impl->num_values = num_values;
   impl->table = table;
   return impl;
